@@ -785,11 +785,14 @@ func (e *eng) Op(f []string, line string, out *hx.Out) {
 	switch f[0] {
 	case "probe":
 		// probe unset|refresh: see probe.go (implementation-only oracles; the model answers "ok")
-		s := ""
-		for _, b := range runProbe(f[1], false) {
-			s += " !BAD:C15:" + b
+		s, pr := "", "C15"
+		if f[1] == "refreshbackoff" {
+			pr = "C16" // retry pacing: the refresher must not restart a failing object's backoff
 		}
-		out.P("P:C15 probe ok%s", s)
+		for _, b := range runProbe(f[1], false) {
+			s += " !BAD:" + pr + ":" + b
+		}
+		out.P("P:C15,C16 probe ok%s", s)
 	case "backoff":
 		// backoff <min ns> <max ns> <attempt>: the retry backoff computation itself, on any bounds (the runs
 		// only reach a handful of attempts with millisecond bounds)
